@@ -4,7 +4,8 @@
 (*   frame   abstract frame (Design.tla), incl. derived columns for call components          *)
 (*   used    names of the frame columns the formula uses (from the generator's own record     *)
 (*           of the variables it wrote into the formula text)                                 *)
-(*   policy  "drop" | "error" | "pass";   status "ok" | "ValueError" | other exception name   *)
+(*   policy  "drop" | "error" | "pass";   status "ok" | "ValueError:incomplete_rows" (the       *)
+(*           refusal of na_action = "error") | other exception name                           *)
 (*   common / group / resp: [labels, data, slices, tcomps] (absent parts: labels = <<>>)      *)
 (*     labels: sequence of labels (common/resp: sequence of pieces <<name, level>>;           *)
 (*             group: <<effect pieces, group pieces>>);  data: rows of integers (NA = -99)    *)
@@ -87,8 +88,8 @@ PassOOD(e) == e.policy = "pass" /\ \E v \in Used(e) : IsCat(e.frame, v) /\ \E r 
 BuildClause(e) ==
   LET fr == EffFrame(e) IN
   IF PassOOD(e) THEN "none"
-  ELSE IF e.policy = "error" /\ IncompleteRows(e) # {} THEN (IF e.status = "ValueError" THEN "none" ELSE "incomplete_rows_not_refused")
-  ELSE IF e.policy = "error" /\ e.status = "ValueError" THEN "complete_data_refused"
+  ELSE IF e.policy = "error" /\ IncompleteRows(e) # {} THEN (IF e.status = "ValueError:incomplete_rows" THEN "none" ELSE "incomplete_rows_not_refused")
+  ELSE IF e.status = "ValueError:incomplete_rows" THEN "complete_data_refused"
   ELSE IF fr.n = 0 THEN "none"
   ELSE IF e.status # "ok" THEN "exception_on_valid_input"
   ELSE IF Len(e.common.data) # fr.n /\ e.common.labels # <<>> THEN "common_rows_not_the_retained_observations"
